@@ -662,10 +662,10 @@ class SDMM(Alg):
                     )
                 )
             if c_max is not None:
-                self.zMax = self.x
+                self.zMax = self.x.copy()
                 self.uMax = xp.zeros(xp.shape(self.x), dtype=xp.complex128)
             if c_norm is not None:
-                self.zNorm = self.x
+                self.zNorm = self.x.copy()
                 self.uNorm = xp.zeros(xp.shape(self.x), dtype=xp.complex128)
 
     def prox_rhog(self, v, c):
